@@ -1,7 +1,12 @@
 //! C20 — `==`, `cmp`, `Hash` and `Clone` of the real representations.
 //!
 //!   eq_pair <repr> [<startA> <opsA>] [<startB> <opsB>] <mut>
-//!     =>  [eq cmp hasheq] OBSA OBSB [ceq ret OBSA' OBSC] [ceq ret OBSB' OBSC']
+//!     =>  [eq cmp hasheq] OBSA OBSB [ceq ret OBSA' OBSC] [ceq ret OBSB' OBSC'] CONSA CONSB
+//!     =>  [refused a|b|ab]                      (a `from` conversion panicked)
+//!
+//! `CONS = [drained rebuiltEq rebuiltHashEq rebuiltCmp]`: a clone with every shown arc removed `==`
+//! a fresh digraph on the shown vertices; a fresh digraph with the shown arcs (weights) added is
+//! `==`, hashes equal, compares `equal` to the digraph itself.
 //!
 //! Two digraphs of representation `<repr>` are built by two histories (start description +
 //! calls, as in `repr_history`; panicking calls are caught and skipped).  Observed:
@@ -24,7 +29,10 @@
 //!     `X::<gen>(order)`;
 //!   * an operation `complement converse union filter`: the operation applied to digraphs built so
 //!     that its result should be the described digraph (complement of the complement arc set, …);
-//! and then FIXED UP by `add_arc` / `remove_arc` calls (computed from the observed arcs) so that the
+//!   * `[from <src-description>]`: the digraph `<src-description>` (in ITS representation, e.g. a map
+//!     with non-contiguous ids) is built and converted with `From` under `catch_unwind`; a panicking
+//!     conversion makes the whole case `[refused a|b|ab]`; an accepted one is used as it is;
+//! and (the atom kinds) then FIXED UP by `add_arc` / `remove_arc` calls (computed from the observed arcs) so that the
 //! start digraph denotes exactly `<start>`.  Whatever produced it, it must be `==` to the same
 //! digraph built by plain calls.
 #![allow(unused_imports, dead_code, clippy::all)]
@@ -59,7 +67,7 @@ fn replay<D: Subject>(d: &mut D, ops: &[HOp]) -> Option<()> {
     Some(())
 }
 
-fn compare<D: Subject>(mut a: D, mut b: D, ops_a: &[HOp], ops_b: &[HOp], m: &HOp) -> Option<Vec<V>> {
+fn compare<D: Subject + Fresh>(mut a: D, mut b: D, ops_a: &[HOp], ops_b: &[HOp], m: &HOp) -> Option<Vec<V>> {
     replay(&mut a, ops_a)?;
     replay(&mut b, ops_b)?;
     let cmp = match a.cmp(&b) {
@@ -72,6 +80,7 @@ fn compare<D: Subject>(mut a: D, mut b: D, ops_a: &[HOp], ops_b: &[HOp], m: &HOp
         obs(&a),
         obs(&b),
     ];
+    let (cons_a, cons_b) = (consistency(&a), consistency(&b));
     // clone, mutate the clone, the original must not move
     let mut c = a.clone();
     let ceq = c == a;
@@ -82,18 +91,103 @@ fn compare<D: Subject>(mut a: D, mut b: D, ops_a: &[HOp], ops_b: &[HOp], m: &HOp
     let ceq2 = c2 == b;
     let ret2 = b.apply(m)?;
     out.push(V::L(vec![V::bool(ceq2), ret2, obs(&b), obs(&c2)]));
+    out.push(cons_a);
+    out.push(cons_b);
     Some(out)
 }
 
 /// `[desc ops]` or `[desc ops via]`: with `via` the start digraph is first built in the
 /// representation `via` and then converted with `From` (unweighted, contiguous ids only).
-fn parse_hist(v: &V) -> Option<(Desc, Vec<HOp>, Option<String>)> {
+fn parse_hist(v: &V) -> Option<(Desc, Vec<HOp>, Option<String>, Option<Desc>)> {
     let xs = v.as_list()?;
     match xs.len() {
-        2 => Some((Desc::parse(&xs[0])?, parse_ops(&xs[1])?, None)),
-        3 => Some((Desc::parse(&xs[0])?, parse_ops(&xs[1])?, Some(xs[2].as_atom()?.to_string()))),
+        2 => Some((Desc::parse(&xs[0])?, parse_ops(&xs[1])?, None, None)),
+        3 => match &xs[2] {
+            V::A(a) => Some((Desc::parse(&xs[0])?, parse_ops(&xs[1])?, Some(a.clone()), None)),
+            V::L(f) if f.len() == 2 && f[0].as_atom() == Some("from") => {
+                Some((Desc::parse(&xs[0])?, parse_ops(&xs[1])?, None, Some(Desc::parse(&f[1])?)))
+            }
+            _ => None,
+        },
         _ => None,
     }
+}
+
+/// A start digraph, or a `From` conversion that panicked.
+pub enum Start<T> {
+    Built(T),
+    Refused,
+}
+
+fn conv<T, F: FnOnce() -> T>(f: F) -> Start<T> {
+    match std::panic::catch_unwind(std::panic::AssertUnwindSafe(f)) {
+        Ok(t) => Start::Built(t),
+        Err(_) => Start::Refused,
+    }
+}
+
+/// `<$target>::from(<source built from its own description>)` for every `From` impl pair.
+macro_rules! from_src {
+    ($src:expr, $target:ty, $tname:expr) => {{
+        let src: &Desc = $src;
+        if src.repr == $tname {
+            None
+        } else {
+            match src.repr.as_str() {
+                "al" => { let g = src.build_al(); Some(conv(move || <$target>::from(g))) }
+                "am" => { let g = src.build_am(); Some(conv(move || <$target>::from(g))) }
+                "mx" => { let g = src.build_mx(); Some(conv(move || <$target>::from(g))) }
+                "el" => { let g = src.build_el(); Some(conv(move || <$target>::from(g))) }
+                _ => None,
+            }
+        }
+    }};
+}
+
+/// A digraph of the same type on the same vertices without arcs, through the public API.
+pub trait Fresh: Sized {
+    fn fresh(&self) -> Self;
+}
+impl Fresh for graaf::AdjacencyList {
+    fn fresh(&self) -> Self { Self::empty(graaf::Order::order(self)) }
+}
+impl Fresh for graaf::AdjacencyMatrix {
+    fn fresh(&self) -> Self { Self::empty(graaf::Order::order(self)) }
+}
+impl Fresh for graaf::EdgeList {
+    fn fresh(&self) -> Self { Self::empty(graaf::Order::order(self)) }
+}
+impl Fresh for graaf::AdjacencyListWeighted<usize> {
+    fn fresh(&self) -> Self { Self::empty(graaf::Order::order(self)) }
+}
+impl Fresh for graaf::AdjacencyListWeighted<isize> {
+    fn fresh(&self) -> Self { Self::empty(graaf::Order::order(self)) }
+}
+impl Fresh for graaf::AdjacencyMap {
+    fn fresh(&self) -> Self {
+        let verts: Vec<usize> = graaf::Vertices::vertices(self).collect();
+        Desc { repr: "am".to_string(), verts, arcs: vec![], weights: vec![] }.build_am()
+    }
+}
+
+/// Implementation-only consistency of one digraph with what it shows.
+fn consistency<D: Subject + Fresh>(d: &D) -> V {
+    let arcs = d.arcs_();
+    let mut drained = d.clone();
+    for &(u, v, _) in &arcs {
+        let _ = drained.apply(&HOp::Rem(u, v));
+    }
+    let fresh = d.fresh();
+    let mut rebuilt = d.fresh();
+    for &(u, v, w) in &arcs {
+        let _ = rebuilt.apply(&if D::WEIGHTED { HOp::AddW(u, v, w) } else { HOp::Add(u, v) });
+    }
+    V::L(vec![
+        V::bool(drained == fresh),
+        V::bool(rebuilt == *d),
+        V::bool(hash_of(&rebuilt) == hash_of(d)),
+        V::bool(rebuilt.cmp(d) == std::cmp::Ordering::Equal),
+    ])
 }
 
 pub const GENERATORS: [&str; 11] =
@@ -231,7 +325,7 @@ fn start_am(d: &Desc, via: &Option<String>) -> Option<graaf::AdjacencyMap> {
     start_of!(d, via, graaf::AdjacencyMap, build_am)
 }
 
-fn clone_from_case<D: Subject>(mut dst: D, mut src: D, ops_d: &[HOp], ops_s: &[HOp], m: &HOp) -> Option<Vec<V>> {
+fn clone_from_case<D: Subject + Fresh>(mut dst: D, mut src: D, ops_d: &[HOp], ops_s: &[HOp], m: &HOp) -> Option<Vec<V>> {
     replay(&mut dst, ops_d)?;
     replay(&mut src, ops_s)?;
     dst.clone_from(&src);
@@ -256,25 +350,58 @@ pub fn eval(op: &str, args: &[V]) -> Option<Vec<V>> {
     }
     let [repr, ha, hb, m] = args else { return None };
     let repr = repr.as_atom()?;
-    let (da, oa, va) = parse_hist(ha)?;
-    let (db, ob, vb) = parse_hist(hb)?;
+    let (da, oa, va, fa) = parse_hist(ha)?;
+    let (db, ob, vb, fb) = parse_hist(hb)?;
     let m = HOp::parse(m)?;
     if da.repr != repr || db.repr != repr {
         return None;
     }
     macro_rules! run {
         ($a:expr, $b:expr) => {{
-            let (a, b) = ($a?, $b?);
-            if op == "eq_pair" { compare(a, b, &oa, &ob, &m) } else { clone_from_case(a, b, &oa, &ob, &m) }
+            match ($a?, $b?) {
+                (Start::Built(a), Start::Built(b)) => {
+                    if op == "eq_pair" { compare(a, b, &oa, &ob, &m) } else { clone_from_case(a, b, &oa, &ob, &m) }
+                }
+                (Start::Refused, Start::Built(_)) => Some(vec![V::L(vec![V::atom("refused"), V::atom("a")])]),
+                (Start::Built(_), Start::Refused) => Some(vec![V::L(vec![V::atom("refused"), V::atom("b")])]),
+                (Start::Refused, Start::Refused) => Some(vec![V::L(vec![V::atom("refused"), V::atom("ab")])]),
+            }
+        }};
+    }
+    // one side: `[from src]` (conversion under catch_unwind) or any of the other start kinds
+    macro_rules! side {
+        ($d:expr, $via:expr, $from:expr, $target:ty, $tname:expr, $plain:expr) => {{
+            match $from {
+                Some(src) => from_src!(src, $target, $tname),
+                None => $plain.map(Start::Built),
+            }
         }};
     }
     match repr {
-        "al" => run!(start_of!(&da, va, graaf::AdjacencyList, build_al), start_of!(&db, vb, graaf::AdjacencyList, build_al)),
-        "am" => run!(start_am(&da, &va), start_am(&db, &vb)),
-        "mx" => run!(start_of!(&da, va, graaf::AdjacencyMatrix, build_mx), start_of!(&db, vb, graaf::AdjacencyMatrix, build_mx)),
-        "el" => run!(start_of!(&da, va, graaf::EdgeList, build_el), start_of!(&db, vb, graaf::EdgeList, build_el)),
-        "wu" if va.is_none() && vb.is_none() => run!(Some(da.build_wu()), Some(db.build_wu())),
-        "wi" if va.is_none() && vb.is_none() => run!(Some(da.build_wi()), Some(db.build_wi())),
+        "al" => run!(
+            side!(&da, va, &fa, graaf::AdjacencyList, "al", start_of!(&da, va, graaf::AdjacencyList, build_al)),
+            side!(&db, vb, &fb, graaf::AdjacencyList, "al", start_of!(&db, vb, graaf::AdjacencyList, build_al))
+        ),
+        "am" => run!(
+            side!(&da, va, &fa, graaf::AdjacencyMap, "am", start_am(&da, &va)),
+            side!(&db, vb, &fb, graaf::AdjacencyMap, "am", start_am(&db, &vb))
+        ),
+        "mx" => run!(
+            side!(&da, va, &fa, graaf::AdjacencyMatrix, "mx", start_of!(&da, va, graaf::AdjacencyMatrix, build_mx)),
+            side!(&db, vb, &fb, graaf::AdjacencyMatrix, "mx", start_of!(&db, vb, graaf::AdjacencyMatrix, build_mx))
+        ),
+        "el" => run!(
+            side!(&da, va, &fa, graaf::EdgeList, "el", start_of!(&da, va, graaf::EdgeList, build_el)),
+            side!(&db, vb, &fb, graaf::EdgeList, "el", start_of!(&db, vb, graaf::EdgeList, build_el))
+        ),
+        "wu" if va.is_none() && vb.is_none() => run!(
+            side!(&da, va, &fa, graaf::AdjacencyListWeighted<usize>, "wu", Some(da.build_wu())),
+            side!(&db, vb, &fb, graaf::AdjacencyListWeighted<usize>, "wu", Some(db.build_wu()))
+        ),
+        "wi" if va.is_none() && vb.is_none() => run!(
+            side!(&da, va, &fa, graaf::AdjacencyListWeighted<isize>, "wi", Some(da.build_wi())),
+            side!(&db, vb, &fb, graaf::AdjacencyListWeighted<isize>, "wi", Some(db.build_wi()))
+        ),
         _ => None,
     }
 }
@@ -564,6 +691,126 @@ fn gen_clonefrom(rng: &mut Rng, emit: &mut dyn FnMut(String), repr: &str, pairs:
     }
 }
 
+/// A source digraph for a `From` conversion, in representation `src`. For the map: contiguous
+/// ids, sparse ids, ids just past the order with a tail ≥ order → head < order arc (or the other
+/// way round, or none), and filter_vertices-like shapes (a vertex of `0..n` missing).
+fn gen_from_source(rng: &mut Rng, src: &str, shape: usize) -> Desc {
+    if src != "am" {
+        let max = if rng.chance(1, 6) { 40 } else { 9 };
+        return graphs::gen_desc(rng, src, max).1;
+    }
+    match shape % 8 {
+        0 => graphs::gen_desc(rng, "am", 9).1,
+        1 => graphs::gen_am_sparse(rng, 6).1,
+        2 | 3 | 4 => {
+            // 0..n plus ids at / just past the resulting order
+            let n = 1 + rng.below(7);
+            let extras = 1 + rng.below(2);
+            let order = n + extras;
+            let mut verts: Vec<usize> = (0..n).collect();
+            let mut far = vec![];
+            for k in 0..extras {
+                let e = order + k + rng.below(3) * (k + 1);
+                if !verts.contains(&e) {
+                    verts.push(e);
+                    far.push(e);
+                }
+            }
+            let mut arcs = if n >= 2 { graphs::gen_arcs(rng, n).1 } else { vec![] };
+            arcs.truncate(2 * n);
+            if let Some(&e) = far.first() {
+                let x = rng.below(n);
+                match shape % 8 {
+                    2 => arcs.push((e, x)), // tail ≥ order, head < order
+                    3 => arcs.push((x, e)), // head ≥ order
+                    _ => {}                 // the far vertex stays isolated: the conversion is fine
+                }
+            }
+            let k = arcs.len();
+            Desc { repr: "am".to_string(), verts, arcs, weights: vec![1; k] }
+        }
+        _ => {
+            // what filter_vertices leaves: 0..n without one or two vertices, arcs among the rest
+            let n = 3 + rng.below(6);
+            let drop = if rng.chance(1, 2) { 0 } else { rng.below(n) };
+            let verts: Vec<usize> = (0..n).filter(|&x| x != drop && !(x == n / 2 && rng.chance(1, 3))).collect();
+            let mut arcs = vec![];
+            if shape % 8 != 7 {
+                for _ in 0..rng.below(2 * verts.len() + 1) {
+                    let (u, v) = (*rng.pick(&verts), *rng.pick(&verts));
+                    if u != v && !arcs.contains(&(u, v)) {
+                        arcs.push((u, v));
+                    }
+                }
+            }
+            let k = arcs.len();
+            Desc { repr: "am".to_string(), verts, arcs, weights: vec![1; k] }
+        }
+    }
+}
+
+/// Pair sides constructed by `From` (every impl pair), compared with the same digraph by plain calls.
+fn gen_from(rng: &mut Rng, emit: &mut dyn FnMut(String), per_pair: usize) {
+    for target in graphs::ALL_REPRS {
+        for src in graphs::UNWEIGHTED {
+            if src == target {
+                continue;
+            }
+            let cases = if src == "am" { 5 * per_pair } else { per_pair };
+            for i in 0..cases {
+                let source = gen_from_source(rng, src, i);
+                let order = source.verts.len();
+                // what an accepted conversion denotes (meaningless when it is refused)
+                let kept: Vec<(usize, usize)> =
+                    source.arcs.iter().copied().filter(|&(u, v)| u < order && v < order).collect();
+                let k = kept.len();
+                let claimed = Desc { repr: target.to_string(), verts: (0..order).collect(), arcs: kept.clone(), weights: vec![1; k] };
+                let len = rng.below(4);
+                let mut ops = c01::gen_ops(rng, target, &claimed, len);
+                if rng.chance(1, 3) {
+                    ops.clear();
+                }
+                // the other side: plain calls (sometimes another conversion of an equal source)
+                let mut shuffled = kept.clone();
+                rng.shuffle(&mut shuffled);
+                let cut = rng.below(shuffled.len() + 1);
+                let mut direct = claimed.clone();
+                direct.arcs = shuffled[..cut].to_vec();
+                direct.weights = vec![1; cut];
+                let mut ops_b: Vec<HOp> = shuffled[cut..].iter().map(|&(u, v)| add_op(target, u, v, 1)).collect();
+                ops_b.extend(ops.iter().cloned());
+                if rng.chance(1, 4) && order >= 2 {
+                    // differ in one arc
+                    let (u, v) = (rng.below(order), rng.below(order));
+                    if u != v {
+                        ops_b.push(if kept.contains(&(u, v)) { HOp::Rem(u, v) } else { add_op(target, u, v, 1) });
+                    }
+                }
+                let m = if order >= 2 && rng.chance(2, 3) {
+                    let u = rng.below(order);
+                    let v = (u + 1 + rng.below(order - 1)) % order;
+                    if rng.chance(1, 2) { add_op(target, u, v, 1) } else { HOp::Rem(u, v) }
+                } else {
+                    add_op(target, 0, 0, 1)
+                };
+                let left = format!("[{} {} [from {}]]", claimed.to_v(), show_ops(&ops), source.to_v());
+                let right = if rng.chance(1, 6) && src != "el" && target != "el" {
+                    // both sides by conversion, from different source representations
+                    let other = Desc { repr: "el".to_string(), verts: (0..order).collect(), arcs: kept.clone(), weights: vec![1; k] };
+                    format!("[{} {} [from {}]]", claimed.to_v(), show_ops(&ops), other.to_v())
+                } else {
+                    format!("[{} {}]", direct.to_v(), show_ops(&ops_b))
+                };
+                if rng.chance(1, 2) {
+                    emit(format!("eq_pair {target} {left} {right} {}", m.to_v()));
+                } else {
+                    emit(format!("eq_pair {target} {right} {left} {}", m.to_v()));
+                }
+            }
+        }
+    }
+}
+
 fn gen_unsorted(rng: &mut Rng, thorough: bool, emit: &mut dyn FnMut(String)) {
     if crate::stress() {
         // big matrices: block-level shortcuts usually switch on above some order (256, 512, …)
@@ -575,6 +822,8 @@ fn gen_unsorted(rng: &mut Rng, thorough: bool, emit: &mut dyn FnMut(String)) {
         gen_clonefrom(rng, emit, "mx", &pairs);
         return;
     }
+    // (00) sides constructed by `From` from a source in another representation (may be refused)
+    gen_from(rng, emit, if thorough { 60 } else { 10 });
     // (0) sides produced by generators / operations / conversions, orders with full and partial last blocks
     let mx_orders: Vec<usize> = if thorough {
         (1..=40).chain([48, 63, 64, 65, 72, 96, 127, 128, 129]).collect()
@@ -602,6 +851,7 @@ fn gen_unsorted(rng: &mut Rng, thorough: bool, emit: &mut dyn FnMut(String)) {
                 pairs.push((a, b));
             }
         }
+        pairs.push((a, a));
         pairs.push((a, a));
         pairs.push((a, a));
     }
